@@ -242,7 +242,7 @@ def build_api_edit(c, names, rng):
         where = p
         k = c['kind'][s - 1]
         if (p and p != r and k in ('compound', 'orthogonal', 'basic') and c['kind'][r - 1] in ('compound', 'orthogonal')
-                and rng.random() < 0.5):
+                and rng.random() < (0.7 if k != 'basic' else 0.4)):
             where = r
             moved.append(s)
         if rng.random() < 0.3:
